@@ -7,7 +7,7 @@ is implementation-defined and never second-guessed."""
 import datetime as dt
 
 from checks import propops as OPS  # noqa: F401
-from mc import hist, report
+from mc import env, hist, report
 
 PROP = "C05"
 CHECK = "value-dtype-invariant"
@@ -124,13 +124,13 @@ def oracle(pre, pool, op, outcome, cfg):
             out.append(("refused-operation-changed-values-or-dtype", "%r -> %r" % (pre, post), True))
         exc = outcome[1]
         if name == "set_dtype":
-            if canonical_dtype(OPS.dtype_value(op[1])) is not None and exc != "ValueError":
+            if canonical_dtype(OPS.dtype_value(op[1])) is not None and not env.is_a(exc, "ValueError"):
                 out.append(("dtype-change-refused-with-wrong-exception", exc, False))
-        elif name in ("setitem", "insert") and exc == "IndexError":
+        elif name in ("setitem", "insert") and env.is_a(exc, "IndexError"):
             pass
         elif name == "ctor" and canonical_dtype(OPS.dtype_value(op[1])) is None:
             pass
-        elif name in VALUE_OPS and exc != "ValueError":
+        elif name in VALUE_OPS and not env.is_a(exc, "ValueError"):
             out.append(("refused-with-wrong-exception", exc, False))
     if outcome[0] == "ok" and name in ("ctor", "set_values", "extend"):
         # an accepted list stores every one of its items (None and empty items mean 'no value'): an item that cannot be
